@@ -14,6 +14,7 @@ LEVEL = 'exploration'
 VARIANT = 'plain'
 TOOLS = [('plain', 'abidw'), ('plain', 'abidiff'), ('plain', 'abipkgdiff')]
 JOBS = 2
+REPLAY_SAME_RUNDIR = True    # the replay of an item sees the very paths the batch saw (schedule-dependent abipkgdiff outcomes depended on them)
 RERUNS = {'quick': 10, 'thorough': 40}
 MAX_HANDLE = 6
 SERVER_PREFIX = ['setarch', 'x86_64', '-R']   # ADDR_NO_RANDOMIZE: stack, libraries and mmap base fixed; the heap is placed by the seed
